@@ -68,6 +68,8 @@ func simpleArg(info *types.Info, e ast.Expr) bool {
 		return x.Op == token.AND && simpleArg(info, x.X)
 	case *ast.IndexExpr:
 		return simpleArg(info, x.X) && simpleArg(info, x.Index)
+	case *ast.FuncLit:
+		return true // a callback handed to a helper: substituted where the helper calls it, and inlined there
 	}
 	return false
 }
@@ -81,6 +83,11 @@ func (f *Flow) inlineOf(e Event) *inlined {
 		return in
 	}
 	f.inl[e.Call] = nil
+	if lit, isLit := ast.Unparen(e.Call.Fun).(*ast.FuncLit); isLit {
+		in := f.inlineLit(e, lit)
+		f.inl[e.Call] = in
+		return in
+	}
 	fnObj, ok := e.Callee.(*types.Func)
 	if !ok {
 		return nil
@@ -98,7 +105,7 @@ func (f *Flow) inlineOf(e Event) *inlined {
 		return nil
 	}
 	sig, _ := fnObj.Type().(*types.Signature)
-	if sig == nil || sig.Variadic() || sig.TypeParams().Len() > 0 || sig.RecvTypeParams().Len() > 0 {
+	if sig == nil || sig.Variadic() || sig.RecvTypeParams().Len() > 0 {
 		return nil
 	}
 	// a private helper of the analysed function (a piece it was split into) is inlined generously:
@@ -290,4 +297,84 @@ func (in *inlined) retVals(p *Path) []ast.Expr {
 		out = append(out, id)
 	}
 	return out
+}
+
+// inlineLit prepares the body of a function literal that is called on the spot — `func(){…}()`, which is
+// what remains when a callback handed to a helper (withLock(func() error {…})) is substituted where the
+// helper calls it. Free variables are the caller's own; parameters are bound to the arguments.
+func (f *Flow) inlineLit(e Event, lit *ast.FuncLit) *inlined {
+	if lit.Type.Params != nil {
+		n := 0
+		for _, fld := range lit.Type.Params.List {
+			n += len(fld.Names)
+			if len(fld.Names) == 0 {
+				n++
+			}
+		}
+		if n != len(e.Call.Args) {
+			return nil
+		}
+	} else if len(e.Call.Args) != 0 {
+		return nil
+	}
+	for _, s := range f.inlLits {
+		if s == lit {
+			return nil
+		}
+	}
+	inlineSeq++
+	suffix := fmt.Sprintf("__%d", inlineSeq)
+	rename := map[types.Object]string{}
+	ast.Inspect(lit, func(n ast.Node) bool {
+		if id, ok := n.(*ast.Ident); ok {
+			if o := f.Info.Defs[id]; o != nil {
+				if _, isVar := o.(*types.Var); isVar && id.Name != "_" {
+					rename[o] = id.Name + suffix
+				}
+			}
+		}
+		return true
+	})
+	in := &inlined{key: f.Name + "$lit"}
+	if f.self != nil {
+		in.key = f.self.Key // the literal is part of the function it is written in
+	}
+	cl := &cloner{info: f.Info, rename: rename, onLit: func(old, new *ast.FuncLit) { f.P.enclosing[new] = f.P.enclosing[old] }}
+	ai := 0
+	if lit.Type.Params != nil {
+		for _, fld := range lit.Type.Params.List {
+			for _, nm := range fld.Names {
+				if nm.Name != "_" {
+					in.binds = append(in.binds, Event{Kind: EvAssign, Pos: e.Call.Pos(), Lhs: []ast.Expr{cl.defIdent(nm)}, Rhs: []ast.Expr{e.Call.Args[ai]}, Tok: token.DEFINE, Block: e.Block})
+				}
+				ai++
+			}
+			if len(fld.Names) == 0 {
+				ai++
+			}
+		}
+	}
+	if lit.Type.Results != nil {
+		named := false
+		for _, fld := range lit.Type.Results.List {
+			for _, nm := range fld.Names {
+				named = true
+				in.results = append(in.results, cl.defIdent(nm))
+			}
+		}
+		if !named {
+			in.results = nil
+		}
+	}
+	body := cl.Block(lit.Body)
+	sub := &Flow{P: f.P, Pkg: f.Pkg, Info: f.Info, Node: body, Body: body, Name: f.Name + "$lit@inl" + suffix,
+		comm: map[ast.Node]bool{}, caseTag: map[ast.Expr]*ast.SwitchStmt{}, inl: map[*ast.CallExpr]*inlined{},
+		inlStack: f.inlStack, self: f.self, inlMode: f.inlMode, inlLits: append(append([]*ast.FuncLit{}, f.inlLits...), lit)}
+	sub.prepare()
+	paths, ok := sub.Paths()
+	if !ok || len(paths) > inlinePrivPaths || len(paths) == 0 {
+		return nil
+	}
+	in.flow = sub
+	return in
 }
